@@ -1,9 +1,139 @@
+import CoupeModel.Model.GridRcb
 import CoupeModel.Driver.Util
 
-namespace Coupe.Driver.C10
-open Coupe.Driver
+/-!
+Driver for C10.  ops (`<T>` = rayon pool size, `<mode>` = `i` for `i64` weights,
+`f` for integer-valued `f64` weights):
 
-/-- (stub; not built yet) -/
-def handle (_toks : List String) : String := "bad-op"
+* `rcb2 <T> <mode> <w> <h> <iter> <plen> <n> <w_0> … <w_{n-1}>`  → `ids <id…>`
+* `rcb3 <T> <mode> <w> <h> <d> <iter> <plen> <n> <w_0> …`        → `ids <id…>`
+* `med <T> <mode> <total> <n> <w_0> …`                           → `med <position> <left_weight>`
+* `pos2 <w> <h> <i>` → `pos x y`, `idx2 <w> <h> <x> <y>` → `idx i`, `pos3 <w> <h> <d> <i>`,
+  `idx3 <w> <h> <d> <x> <y> <z>`, `len2 <w> <h>`, `len3 <w> <h> <d>` → `len n`
+-/
+
+namespace Coupe.Driver.C10
+open Coupe.GridRcb Coupe.Driver
+
+/-- `const TOLERANCE: f64 = 0.01` (bit pattern of the literal). -/
+def tolerance : Float := Float.ofBits 0x3F847AE147AE147B
+
+/-- `ideal * (1.0 - TOLERANCE)`, `ideal * (1.0 + TOLERANCE)` with
+`ideal = total_weight.as_() / 2.0`, in `f64`. -/
+def thresholds (total : Int) : Float × Float :=
+  let ideal : Float := Float.ofInt total / 2.0
+  (ideal * (1.0 - tolerance), ideal * (1.0 + tolerance))
+
+/-- `i64` weights: `x as i64` (truncation toward zero; values are far from saturation).
+`none` outside `|total| < 2^53` (the `i64 → f64` conversion would round). -/
+def rawBracket (mode : String) (total : Int) : Option (Int × Int) :=
+  if total.natAbs ≥ 2 ^ 53 then none else
+  let (lo, hi) := thresholds total
+  if mode == "i" then some (lo.toInt64.toInt, hi.toInt64.toInt)
+  else
+    -- `f64` weights with integer values: `p < lo ↔ p < ⌈lo⌉`, `hi < p ↔ ⌊hi⌋ < p` for integer `p`
+    some (lo.ceil.toInt64.toInt, hi.floor.toInt64.toInt)
+
+/-- The bracket handed to the model: checked against `Bracket` on every call. -/
+def checkedBracket (mode : String) (total : Int) : Option (Int × Int) :=
+  match rawBracket mode total with
+  | none => none
+  | some (a, b) => if Bracket total a b then some (a, b) else none
+
+def showAbort : Abort → String
+  | .sliceIndex => "panic slice index"
+  | .divZero => "panic divide by zero"
+  | .weightIndex => "panic index out of bounds"
+  | .subOverflow => "panic attempt to subtract with overflow"
+  | .outOfFuel => "hang"
+  | .bracket => "skip bracket-not-vouched"
+
+def showIds : Except Abort (List Nat) → String
+  | .ok ids => "ids " ++ joinNats ids
+  | .error e => showAbort e
+
+def parseMode? (s : String) : Option String := if s == "i" || s == "f" then some s else none
+
+def handle (toks : List String) : String :=
+  match toks with
+  | "rcb2" :: rest =>
+    match (do
+      let (hd, rest) ← takeParsed parseNat? 1 rest
+      match rest with
+      | mode :: rest =>
+        let mode ← parseMode? mode
+        let (a, rest) ← takeParsed parseNat? 5 rest
+        match hd, a with
+        | [t], [w, h, iter, plen, n] =>
+          let (ws, rest) ← takeParsed parseInt? n rest
+          if rest.isEmpty && w ≥ 1 && h ≥ 1 then some (t, mode, w, h, iter, plen, ws) else none
+        | _, _ => none
+      | [] => none) with
+    | none => "bad-op"
+    | some (t, mode, w, h, iter, plen, ws) =>
+      showIds (rcb2 {} t (checkedBracket mode) w h ws.toArray plen iter)
+  | "rcb3" :: rest =>
+    match (do
+      let (hd, rest) ← takeParsed parseNat? 1 rest
+      match rest with
+      | mode :: rest =>
+        let mode ← parseMode? mode
+        let (a, rest) ← takeParsed parseNat? 6 rest
+        match hd, a with
+        | [t], [w, h, d, iter, plen, n] =>
+          let (ws, rest) ← takeParsed parseInt? n rest
+          if rest.isEmpty && w ≥ 1 && h ≥ 1 && d ≥ 1 then some (t, mode, w, h, d, iter, plen, ws) else none
+        | _, _ => none
+      | [] => none) with
+    | none => "bad-op"
+    | some (t, mode, w, h, d, iter, plen, ws) =>
+      showIds (rcb3 {} t (checkedBracket mode) w h d ws.toArray plen iter)
+  | "med" :: t :: mode :: total :: n :: rest =>
+    match (do
+      let t ← parseNat? t
+      let mode ← parseMode? mode
+      let total ← parseInt? total
+      let n ← parseNat? n
+      let (ws, rest) ← takeParsed parseInt? n rest
+      if rest.isEmpty then some (t, mode, total, ws) else none) with
+    | none => "bad-op"
+    | some (t, mode, total, ws) =>
+      match rawBracket mode total with
+      | none => "skip total-beyond-2^53"
+      | some (a, b) =>
+        match weightedMedian {} t ws a b with
+        | .ok (p, l) => "med " ++ toString p ++ " " ++ toString l
+        | .error e => showAbort e
+  | ["pos2", w, _h, i] =>
+    match parseNat? w, parseNat? i with
+    | some w, some i =>
+      if w = 0 then "bad-op" else
+      let p := positionOf2 w i
+      "pos " ++ toString p.1 ++ " " ++ toString p.2
+    | _, _ => "bad-op"
+  | ["idx2", w, _h, x, y] =>
+    match parseNat? w, parseNat? x, parseNat? y with
+    | some w, some x, some y => "idx " ++ toString (indexOf2 w (x, y))
+    | _, _, _ => "bad-op"
+  | ["pos3", w, h, _d, i] =>
+    match parseNat? w, parseNat? h, parseNat? i with
+    | some w, some h, some i =>
+      if w = 0 || h = 0 then "bad-op" else
+      let p := positionOf3 w h i
+      "pos " ++ toString p.1 ++ " " ++ toString p.2.1 ++ " " ++ toString p.2.2
+    | _, _, _ => "bad-op"
+  | ["idx3", w, h, _d, x, y, z] =>
+    match parseNat? w, parseNat? h, parseNat? x, parseNat? y, parseNat? z with
+    | some w, some h, some x, some y, some z => "idx " ++ toString (indexOf3 w h (x, y, z))
+    | _, _, _, _, _ => "bad-op"
+  | ["len2", w, h] =>
+    match parseNat? w, parseNat? h with
+    | some w, some h => "len " ++ toString (w * h)
+    | _, _ => "bad-op"
+  | ["len3", w, h, d] =>
+    match parseNat? w, parseNat? h, parseNat? d with
+    | some w, some h, some d => "len " ++ toString (w * h * d)
+    | _, _, _ => "bad-op"
+  | _ => "bad-op"
 
 end Coupe.Driver.C10
